@@ -316,8 +316,8 @@ def run(R):
     with R.guard('C08.R8'):
         th = tonic.body('status::Status::to_header_map')
         R.saw(th)
-        ah = th.calls(name='add_header')
-        oka = len(ah) == 1 and all(th.must_pass(0, rb_, [ah[0][0]]) for rb_ in th.return_blocks()) and bool(th.return_blocks())
+        ah = writer_entry_blocks(tonic, th)
+        oka = len(ah) == 1 and all(th.must_pass(0, rb_, [ah[0]]) for rb_ in th.return_blocks()) and bool(th.return_blocks())
         R.check(oka, 'C08.R8', 'to_header_map-always-add_header', site(th), 'every path of to_header_map to a return passes through add_header (no fast path that emits grpc-status alone and forgets the trailing metadata): %r' % oka)
         ih = tonic.body('status::Status::into_http')
         ahi = ih.calls(name='add_header')
